@@ -609,6 +609,9 @@ class PosPriorityQueue(Generic[T]):
         a fixed ordering.
         """
         newpri = []
+        # walk the entries in their current pop order, so that the new sequence
+        # numbers keep positional entries and equal-priority entries in order
+        self._pq.sort()
         for pri, obj in self._pq.items():
             if pri.priority_class != 0:
                 pri.base_priority = self._get_priority(obj)
